@@ -47,7 +47,8 @@ def cases(tier, seed):
             k = int(rng.integers(1, 12))
             case["gp_fault"] = list(range(k, k + int(rng.choice([1, 2, 3]))))
         out.append(case)
-    out += C.option_variation_slice("C15", tier, seed)
+    # (the selection metric only matters with >= 2 coordinates of different fitted length scale; several refits needed)
+    out += C.option_variation_slice("C15", tier, seed, gen_kw=dict(Dchoices=(2, 3), lands=("quad", "rosen", "bowl4"), budgets=(90, 120)))
     return out
 
 
